@@ -3,7 +3,7 @@
 HOOK_COMMITS = ['afbbdb338']
 
 ENGINES = [
-    dict(name='E4-TSE', path='engine/vsrt/vsrt.cpp, engine/tse.hpp', serves_properties=['C18', 'C19'],
+    dict(name='E4-TSE', path='engine/vsrt/vsrt.cpp, engine/tse.hpp', serves_properties=['C03', 'C18', 'C19'],
          kind_free_text='stateless preemption-bounded exploration of thread schedules of the real implementation: libvsrt serialises real std::threads (futex hand-off), interposes pthread/once/guards/'
                         'sleep/clock, implements the __tsan_* ABI with a vector-clock happens-before monitor; tse.hpp runs every schedule in a forked child and iterates the site sets to a fixpoint'),
     dict(name='E1-DBE', path='engine/choice.hpp', serves_properties=['C01', 'C02', 'C03', 'C04', 'C08', 'C15', 'C16', 'C17', 'C20'],
@@ -28,7 +28,8 @@ HARNESSES = {
     'C02': [dict(name='c02_control', src=['C02_control.cpp'], flavour='asan')],
     'C20': [dict(name='c20_repro', src=['C20_repro.cpp'], flavour='asan')],
     'C04': [dict(name='c04_costs', src=['C04_costs.cpp'], flavour='asan')],
-    'C03': [dict(name='c03_interrupt', src=['C03_interrupt.cpp'], flavour='asan', ldflags=['-rdynamic'])],
+    'C03': [dict(name='c03_interrupt', src=['C03_interrupt.cpp'], flavour='asan', ldflags=['-rdynamic']),
+            dict(name='c03_threads', src=['C19_threads.cpp'], flavour='tsi', cflags=['-DSCEN_C03'], ldflags=['-rdynamic'])],
     'C01': [dict(name='c01_geometric', src=['C01_geometric.cpp'], flavour='asan')],
     'C09': [dict(name='c09_copy', src=['C09_copy.cpp'], flavour='asan')],
     'C08': [dict(name='c08_bounds', src=['C08_bounds.cpp'], flavour='asan')],
@@ -124,12 +125,15 @@ PROPERTY_META = {
         level_note=DBE_NOTE),
     'C03': dict(
         deadline_quick=500, deadline_thorough=1700, engine='E1-DBE', design_ref='5/C03',
-        technique='exhaustive enumeration of the termination index (every k up to past the first solution) x call histories on the real planners under the choice oracle; allocation-counting state space',
+        technique='exhaustive enumeration of the termination index (every k up to past the first solution) x call histories on the real planners under the choice oracle; allocation-counting state space; for the always-multi-threaded planners (PRM, PRM*, SPARS, SPARStwo, CForest) the termination index is crossed with ALL thread schedules with <= P preemptions (E4 schedule explorer)',
         level_text='33 single-threaded geometric planners x 3 worlds: the termination condition first fires at EVERY evaluation index k = 0..K+5, crossed with call histories over solve / '
                    'clear / clearQuery / setProblemDefinition / getPlannerData (10 curated; thorough: all of length <= 4 and single deviations of the answer stream). Per call: bounded further '
                    'evaluations, status vs. delta of the solution set, C01 path oracle for the current query, nothing of the old query after clear/switch, monotone best solution, ASan; after '
-                   'teardown the counting state space must hold no live state and have seen no double free.',
-        level_note=DBE_NOTE + ' Crashing or hanging histories run in forked children, are re-run alone with 10x the time limit, and are reported with their history.'),
+                   'teardown the counting state space must hold no live state and have seen no double free. PRM, PRM*, SPARS, SPARStwo (solution-checking thread) and CForest (2 workers) run under '
+                   'the E4 scheduler: 3 worlds x k in {0,1,2,3,5,8,13,21} (thorough 0..40; CForest 0..8) x interrupt / resume / clear+interrupt x every schedule with <= 1 (thorough 2; CForest 0, '
+                   'thorough 1) preemptions, the termination count taken over all threads of the planner.',
+        level_note=DBE_NOTE + ' Crashing or hanging histories run in forked children, are re-run alone with 10x the time limit, and are reported with their history. Threaded planners: trusted libvsrt, '
+                   'sequential consistency, no leak accounting there.'),
     'C01': dict(
         deadline_quick=420, deadline_thorough=1700, engine='E1-DBE', design_ref='5/C01',
         technique='deviation-bounded exhaustive exploration of every random answer and state sample of the real planners (choice oracle), independent dense path oracle on every execution',
